@@ -6,6 +6,9 @@
 //! `ngmode None|Equiv|Subsume`     -
 //! `ngadd <vec>`                   `= ok`, then `nogoodcheck store <dump>` / `~ ok`
 //! `ngconcl <vec>`                 `= conflict` | `= <vec> <update flag>`, then `nogoodcheck concl <vec> <answer>` / `~ ok`
+//! `ngchain <vec>`                 `= <answer 1> ; <answer 2> ; …` (answers as for `ngconcl`): `conclusions` is fed with the
+//!                                 OBJECT it returned, at most 3 steps, until conflict / nothing new; one
+//!                                 `nogoodcheck concl <input of the step> <answer>` / `~ ok` per step
 //! `ngclosure <vec>`               `= inconsistent` | `= noupdate` | `= update <vec>`, then `nogoodcheck closure …` / `~ ok`
 //! `ngdump`                        `= [bucket0|bucket1|…]`
 //! `ngfinish`                      the statistics line of the case
@@ -13,6 +16,12 @@
 //! `<vec>`: `T`/`F`/`u` per variable, `-` for width 0. The `nogoodcheck` requests hand the
 //! implementation's own answer to the executable specification of the model driver, which
 //! answers `~ ok` or `~ violated <clauses>`.
+//!
+//! Every `NoGood` object (nogood or interpretation) is built by a constructor path chosen from the
+//! request text (`obj`): `from_term_vec`, `try_from_pair_iter`, `new_single_nogood` or a
+//! `disjunction` of two or three parts - the store must not care where an object comes from.
+//! Profiles: default (<= 10 variables), `exh` (exhaustive small scope), `wide` (11-160 variables,
+//! positions around the 32/64/128 boundaries and pairs of nogoods congruent modulo 32/64/128).
 use crate::{rng::Rng, Out};
 use adf_bdd::datatypes::Term;
 use adf_bdd::nogoods::{DuplicateElemination, NoGood, NoGoodStore};
@@ -148,6 +157,20 @@ fn gen_interp(r: &mut Rng, n: usize, pool: &[Vec<u8>]) -> Vec<u8> {
     }
 }
 
+/// the requests about one interpretation: `ngchain` in a quarter of the queries
+fn gen_query(r: &mut Rng, v: &[u8], out: &mut Out) {
+    let v = show(v);
+    match r.below(8) {
+        0 | 1 => out.line(&format!("ngchain {v}")),
+        2 | 3 => out.line(&format!("ngconcl {v}")),
+        4 | 5 => out.line(&format!("ngclosure {v}")),
+        _ => {
+            out.line(&format!("ngconcl {v}"));
+            out.line(&format!("ngclosure {v}"));
+        }
+    }
+}
+
 /// all vectors over `n` positions with entries F/T/u
 fn all_vecs(n: usize) -> Vec<Vec<u8>> {
     let mut vs: Vec<Vec<u8>> = vec![Vec::new()];
@@ -198,15 +221,8 @@ pub fn gen(r: &mut Rng, cases: usize, size: usize, out: &mut Out) {
         }
         let mut pool: Vec<Vec<u8>> = Vec::new();
         let query = |r: &mut Rng, pool: &[Vec<u8>], out: &mut Out| {
-            let v = show(&gen_interp(r, n, pool));
-            match r.below(3) {
-                0 => out.line(&format!("ngconcl {v}")),
-                1 => out.line(&format!("ngclosure {v}")),
-                _ => {
-                    out.line(&format!("ngconcl {v}"));
-                    out.line(&format!("ngclosure {v}"));
-                }
-            }
+            let v = gen_interp(r, n, pool);
+            gen_query(r, &v, out);
         };
         let adds = r.range(0, 8);
         for _ in 0..adds {
@@ -232,6 +248,192 @@ pub fn gen(r: &mut Rng, cases: usize, size: usize, out: &mut Out) {
 }
 
 // ------------------------------------------------------------------------------------------
+// wide stores
+
+/// positions next to the word boundaries of 32-, 64- and 128-bit folds
+const BOUNDARY: [usize; 20] = [30, 31, 32, 33, 34, 62, 63, 64, 65, 66, 94, 95, 96, 97, 98, 126, 127, 128, 129, 130];
+
+fn wide_pos(r: &mut Rng, n: usize, hot: &[usize]) -> usize {
+    match r.below(10) {
+        0..=5 if !hot.is_empty() => hot[r.usize(hot.len())],
+        6 | 7 => {
+            let b: Vec<usize> = BOUNDARY.iter().cloned().filter(|p| *p < n).collect();
+            if b.is_empty() { r.usize(n) } else { b[r.usize(b.len())] }
+        }
+        _ => r.usize(n),
+    }
+}
+
+/// the nogood moved by a multiple of 32 / 64 / 128 positions, values kept (`None` if it does not fit)
+fn shifted(r: &mut Rng, g: &[u8]) -> Option<Vec<u8>> {
+    let n = g.len();
+    let d = positions(g, true);
+    if d.is_empty() {
+        return None;
+    }
+    let (lo, hi) = (d[0] as i64, d[d.len() - 1] as i64);
+    let mut shifts: Vec<i64> = Vec::new();
+    for m in [64i64, 64, 64, 32, 128, 96] {
+        for s in [m, -m] {
+            if lo + s >= 0 && hi + s < n as i64 {
+                shifts.push(s);
+            }
+        }
+    }
+    if shifts.is_empty() {
+        return None;
+    }
+    let s = shifts[r.usize(shifts.len())];
+    let mut h = vec![2u8; n];
+    for p in d {
+        h[(p as i64 + s) as usize] = g[p];
+    }
+    Some(h)
+}
+
+/// the next nogood of a wide history: 1-5 literals on hot / boundary / random positions, or a
+/// shifted copy (congruent modulo 32 / 64 / 128, equal values), duplicate, super-/subset or
+/// complement of an earlier one; rarely the empty nogood
+fn gen_wide_nogood(r: &mut Rng, n: usize, hot: &[usize], pool: &[Vec<u8>]) -> Vec<u8> {
+    let kind = r.below(40);
+    let base = if pool.is_empty() { None } else { Some(pool[r.usize(pool.len())].clone()) };
+    match (kind, base) {
+        (0, _) => vec![2; n],
+        (1..=10, Some(g)) => match shifted(r, &g) {
+            Some(h) => h,
+            None => g,
+        },
+        (11..=14, Some(mut g)) => {
+            // weaker: more literals (at most 5)
+            for _ in 0..r.range(1, 2) {
+                if positions(&g, true).len() < 5 {
+                    let p = wide_pos(r, n, hot);
+                    if g[p] == 2 {
+                        g[p] = r.below(2) as u8;
+                    }
+                }
+            }
+            g
+        }
+        (15..=18, Some(mut g)) => {
+            // stronger: fewer literals (at least 1)
+            let d = positions(&g, true);
+            if d.len() > 1 {
+                g[d[r.usize(d.len())]] = 2;
+            }
+            g
+        }
+        (19..=21, Some(g)) => g,
+        (22..=27, Some(mut g)) => {
+            let d = positions(&g, true);
+            if !d.is_empty() {
+                let p = d[r.usize(d.len())];
+                g[p] = 1 - g[p];
+            }
+            g
+        }
+        _ => {
+            let mut g = vec![2u8; n];
+            for _ in 0..r.range(1, 5) {
+                g[wide_pos(r, n, hot)] = r.below(2) as u8;
+            }
+            g
+        }
+    }
+}
+
+/// an interpretation for a wide store: as `gen_interp`, but the random further decisions prefer
+/// the hot positions (so that conclusions chain) and stay sparse
+fn gen_wide_interp(r: &mut Rng, n: usize, hot: &[usize], pool: &[Vec<u8>]) -> Vec<u8> {
+    if r.chance(1, 3) {
+        return gen_interp(r, n, pool);
+    }
+    let mut v = match r.below(8) {
+        0 => vec![2u8; n],
+        1..=4 if !pool.is_empty() => {
+            // all but one literal of an added nogood
+            let mut g = pool[r.usize(pool.len())].clone();
+            let d = positions(&g, true);
+            if !d.is_empty() {
+                g[d[r.usize(d.len())]] = 2;
+            }
+            g
+        }
+        5 if !pool.is_empty() => pool[r.usize(pool.len())].clone(),
+        6 if !pool.is_empty() => {
+            // the union of two added nogoods (the later one wins on a clash)
+            let mut g = pool[r.usize(pool.len())].clone();
+            let h = &pool[r.usize(pool.len())];
+            for p in positions(h, true) {
+                g[p] = h[p];
+            }
+            g
+        }
+        _ => vec![2u8; n],
+    };
+    for _ in 0..r.range(0, 4) {
+        let p = wide_pos(r, n, hot);
+        if v[p] == 2 {
+            v[p] = r.below(2) as u8;
+        }
+    }
+    v
+}
+
+/// wide stores (11 <= n <= `size` <= 160): widths around 64 and 128 or random, histories of 2-12
+/// nogoods, all three modes with switches, the same requests as the default profile
+pub fn gen_wide(r: &mut Rng, cases: usize, size: usize, out: &mut Out) {
+    let maxv = if size < 11 { 160 } else { size.min(160) };
+    for case in 0..cases {
+        let n = match r.below(3) {
+            0 => r.range(60, 70),
+            1 => r.range(120, 135),
+            _ => r.range(11, 160),
+        }
+        .min(maxv);
+        // the variables most literals are drawn from: some at the boundaries, their images
+        // modulo 64 / 32 / 128, some random
+        let mut hot: Vec<usize> = Vec::new();
+        for _ in 0..r.range(4, 8) {
+            let p = if r.chance(1, 2) { BOUNDARY[r.usize(BOUNDARY.len())] } else { r.usize(n) };
+            for q in [p, p + 64, p % 64, p % 32, p + 32, p + 128] {
+                if q < n && r.chance(2, 3) && !hot.contains(&q) {
+                    hot.push(q);
+                }
+            }
+        }
+        out.line(&format!("case ngwide-{case}"));
+        out.line(&format!("ngnew {n}"));
+        if r.chance(2, 3) {
+            out.line(&format!("ngmode {}", MODES[r.usize(3)]));
+        }
+        let mut pool: Vec<Vec<u8>> = Vec::new();
+        let adds = r.range(2, 12);
+        for _ in 0..adds {
+            if r.chance(1, 6) {
+                out.line(&format!("ngmode {}", MODES[r.usize(3)]));
+            }
+            let g = gen_wide_nogood(r, n, &hot, &pool);
+            out.line(&format!("ngadd {}", show(&g)));
+            pool.push(g);
+            if r.chance(1, 3) {
+                out.line("ngdump");
+            }
+            if r.chance(1, 3) {
+                let v = gen_wide_interp(r, n, &hot, &pool);
+                gen_query(r, &v, out);
+            }
+        }
+        out.line("ngdump");
+        for _ in 0..r.range(2, 6) {
+            let v = gen_wide_interp(r, n, &hot, &pool);
+            gen_query(r, &v, out);
+        }
+        out.line("ngfinish");
+    }
+}
+
+// ------------------------------------------------------------------------------------------
 // executor
 
 #[derive(Default)]
@@ -245,6 +447,9 @@ pub struct Exec {
     queries: usize,
     conflicts: usize,
     concluded: usize,
+    chains: usize,
+    /// objects built by `from_term_vec`, `try_from_pair_iter`, `new_single_nogood`, `disjunction`
+    built: [usize; 4],
 }
 
 fn terms(v: &[u8]) -> Vec<Term> {
@@ -260,6 +465,81 @@ fn terms(v: &[u8]) -> Vec<Term> {
 
 fn show_terms(v: &[Term]) -> String {
     show(&v.iter().map(|t| if t.is_truth_value() { t.is_true() as u8 } else { 2 }).collect::<Vec<u8>>())
+}
+
+/// FNV-1a of the request text: selects the constructor path of the request's object
+fn text_hash(s: &str) -> u64 {
+    s.bytes().fold(0xcbf29ce484222325u64, |h, b| (h ^ b as u64).wrapping_mul(0x100000001b3))
+}
+
+/// the vector with only the listed literals
+fn masked(n: usize, ls: &[(usize, bool)]) -> Vec<u8> {
+    let mut v = vec![2u8; n];
+    for (p, b) in ls {
+        v[*p] = *b as u8;
+    }
+    v
+}
+
+/// one part of a disjunction, itself built by one of the three plain constructors
+fn part(n: usize, ls: &[(usize, bool)], how: u64) -> NoGood {
+    if ls.is_empty() {
+        return if how % 2 == 0 { NoGood::default() } else { NoGood::from_term_vec(&terms(&vec![2u8; n])) };
+    }
+    match how % 3 {
+        0 if ls.len() == 1 => NoGood::new_single_nogood(ls[0].0, ls[0].1),
+        1 => NoGood::try_from_pair_iter(&mut ls.iter().cloned()).expect("consistent pairs"),
+        _ => NoGood::from_term_vec(&terms(&masked(n, ls))),
+    }
+}
+
+/// The `NoGood` object denoted by the vector `v`, built along a path chosen deterministically from
+/// the request text: `from_term_vec`, `try_from_pair_iter` (pairs in ascending, descending or
+/// rotated order, possibly with a repeated pair), `new_single_nogood`, or a `disjunction` of two or
+/// three parts whose literals partition the vector. Returns the path (index into `Exec::built`).
+fn obj(v: &[u8], text: &str) -> (NoGood, usize) {
+    let h = text_hash(text);
+    let n = v.len();
+    let ls: Vec<(usize, bool)> = positions(v, true).into_iter().map(|p| (p, v[p] == 1)).collect();
+    match h % 8 {
+        0 | 1 => (NoGood::from_term_vec(&terms(v)), 0),
+        2 | 3 if !ls.is_empty() => {
+            if ls.len() == 1 && h % 8 == 2 {
+                return (NoGood::new_single_nogood(ls[0].0, ls[0].1), 2);
+            }
+            let mut ps = ls.clone();
+            match (h >> 8) % 4 {
+                0 => {}
+                1 => ps.reverse(),
+                2 => ps.rotate_left((h >> 16) as usize % ls.len()),
+                _ => ps.push(ls[(h >> 16) as usize % ls.len()]),
+            }
+            (NoGood::try_from_pair_iter(&mut ps.into_iter()).expect("consistent pairs"), 1)
+        }
+        2 | 3 => (NoGood::from_term_vec(&terms(v)), 0),
+        k => {
+            // the literals are dealt to 2 or 3 parts: a prefix / suffix split or by position parity
+            let parts = if k < 6 { 2 } else { 3 };
+            let mut dealt: Vec<Vec<(usize, bool)>> = vec![Vec::new(); parts];
+            let cut = if ls.is_empty() { 0 } else { (h >> 8) as usize % (ls.len() + 1) };
+            for (i, l) in ls.iter().enumerate() {
+                let to = match (h >> 20) % 3 {
+                    0 => (i >= cut) as usize + (parts == 3 && i > cut) as usize,
+                    1 => (i + (h >> 24) as usize) % parts,
+                    _ => (l.0 + (h >> 24) as usize) % parts,
+                };
+                dealt[to].push(*l);
+            }
+            if (h >> 30) % 2 == 1 {
+                dealt.reverse();
+            }
+            let mut o = part(n, &dealt[0], h >> 32);
+            for (i, d) in dealt.iter().enumerate().skip(1) {
+                o.disjunction(&part(n, d, h >> (34 + 2 * i)));
+            }
+            (o, 3)
+        }
+    }
 }
 
 #[cfg(adf_obdd_verif)]
@@ -316,7 +596,7 @@ impl Exec {
             "ngnew" if ws.len() == 2 => {
                 out.line(l);
                 match ws[1].parse::<usize>() {
-                    Ok(n) if n <= 10 => {
+                    Ok(n) if n <= 160 => {
                         *self = Exec::default();
                         self.n = n;
                         self.mode = 1;
@@ -326,8 +606,8 @@ impl Exec {
                 }
                 true
             }
-            "nogoodcheck" => true, // regenerated by `ngadd`, `ngconcl`, `ngclosure`
-            "ngmode" | "ngadd" | "ngconcl" | "ngclosure" | "ngdump" | "ngfinish" if self.store.is_none() => {
+            "nogoodcheck" => true, // regenerated by `ngadd`, `ngconcl`, `ngchain`, `ngclosure`
+            "ngmode" | "ngadd" | "ngconcl" | "ngchain" | "ngclosure" | "ngdump" | "ngfinish" if self.store.is_none() => {
                 // no `ngnew` yet: the store of width 0, as in the model driver
                 self.n = 0;
                 self.mode = 1;
@@ -361,8 +641,9 @@ impl Exec {
                     return true;
                 };
                 let n = self.n;
+                let (ng, how) = obj(&g, l);
+                self.built[how] += 1;
                 let store = self.store.as_mut().unwrap();
-                let ng = NoGood::from_term_vec(&terms(&g));
                 let res = catch_unwind(AssertUnwindSafe(|| {
                     store.add_ng(ng);
                     dump(store, n).0
@@ -391,12 +672,16 @@ impl Exec {
                     out.line("= bad-request");
                     return true;
                 };
-                let store = self.store.as_ref().unwrap();
                 let tv = terms(&a);
                 let is_concl = ws[0] == "ngconcl";
+                let (interp, how) = obj(&a, l);
+                if is_concl {
+                    self.built[how] += 1;
+                }
+                let store = self.store.as_ref().unwrap();
                 let res = catch_unwind(AssertUnwindSafe(|| {
                     if is_concl {
-                        match store.conclusions(&NoGood::from_term_vec(&tv)) {
+                        match store.conclusions(&interp) {
                             None => "conflict".to_string(),
                             Some(c) => {
                                 let mut upd = false;
@@ -421,6 +706,59 @@ impl Exec {
                 out.line("= contract ok");
                 true
             }
+            "ngchain" if ws.len() == 2 => {
+                out.line(l);
+                out.flush();
+                let Some(a) = self.vec(ws[1]) else {
+                    out.line("= bad-request");
+                    return true;
+                };
+                let (interp, how) = obj(&a, l);
+                self.built[how] += 1;
+                let store = self.store.as_ref().unwrap();
+                // (input vector, answer) per step; the object of step k+1 is the one step k returned
+                let mut steps: Vec<(String, String)> = Vec::new();
+                let res = catch_unwind(AssertUnwindSafe(|| {
+                    let mut cur = interp;
+                    let mut tv = terms(&a);
+                    for _ in 0..3 {
+                        match store.conclusions(&cur) {
+                            None => {
+                                steps.push((show_terms(&tv), "conflict".to_string()));
+                                break;
+                            }
+                            Some(c) => {
+                                let mut upd = false;
+                                let r = c.update_term_vec(&tv, &mut upd);
+                                steps.push((show_terms(&tv), format!("{} {}", show_terms(&r), upd as u8)));
+                                if !upd {
+                                    break;
+                                }
+                                cur = c;
+                                tv = r;
+                            }
+                        }
+                    }
+                }));
+                if res.is_err() {
+                    let input = steps.last().map(|s| s.1.split(' ').next().unwrap().to_string()).unwrap_or(ws[1].to_string());
+                    steps.push((input, "panic".to_string()));
+                }
+                self.queries += 1;
+                self.chains += 1;
+                if steps.iter().any(|s| s.1 == "conflict") {
+                    self.conflicts += 1;
+                } else if steps.iter().any(|s| s.1.ends_with(" 1")) {
+                    self.concluded += 1;
+                }
+                out.line(&format!("= {}", steps.iter().map(|s| s.1.as_str()).collect::<Vec<_>>().join(" ; ")));
+                for (input, ans) in &steps {
+                    out.line(&format!("nogoodcheck concl {input} {ans}"));
+                    out.line("~ ok");
+                    out.line("= contract ok");
+                }
+                true
+            }
             "ngdump" if ws.len() == 1 => {
                 out.line(l);
                 let store = self.store.as_ref().unwrap();
@@ -443,8 +781,9 @@ impl Exec {
                     _ => "mixed".to_string(),
                 };
                 out.line(&format!(
-                    "# case ng vars={} nogoods={} stored={} mode={} switches={} queries={} conflicts={} concluded={}",
-                    self.n, self.adds, stored, mode, self.switches, self.queries, self.conflicts, self.concluded
+                    "# case ng vars={} nogoods={} stored={} mode={} switches={} queries={} conflicts={} concluded={} chains={} built={}",
+                    self.n, self.adds, stored, mode, self.switches, self.queries, self.conflicts, self.concluded, self.chains,
+                    self.built.iter().map(|x| x.to_string()).collect::<Vec<_>>().join("/")
                 ));
                 true
             }
